@@ -40,6 +40,8 @@ Definition name_eqb (a b : name) : bool :=
   | _, _ => false
   end.
 
+Definition is_user (x : name) : bool := match x with NUser _ => true | _ => false end.
+
 Inductive err := EBase (n : N) | EFrame (e : err).   (* errors.NewFrame(e, ...) = EFrame e *)
 Fixpoint err_root (e : err) : N := match e with EBase n => n | EFrame e' => err_root e' end.
 
